@@ -166,7 +166,7 @@ pub fn globals() -> HashMap<String, Rc<FnDef>> {
 }
 
 pub fn prelude_source() -> String {
-    let mut s = String::new();
+    let mut s = String::from("use aiken/builtin\n\n");
     for a in adts() {
         s.push_str(a.decl);
         s.push('\n');
